@@ -18,7 +18,8 @@ class C10(Prop):
     reach = ["m_absent", "m_bare", "m_pairs", "m_trailing_comma", "p_list", "server_on_unlisted_port", "server_on_p_port",
              "server_on_44330", "quic_conn", "mapped_port_hit", "mapped_default_8080", "first_segment_from_server",
              "after_run_with_other_port_map", "cli_subprocess_optimised", "quic_client_address_change",
-             "same_client_socket_other_server_port"]
+             "same_client_socket_other_server_port", "quic_like_noise_to_unlisted_port",
+             "quic_bit_greased_with_g"]
 
     def plan(self, tier):
         p = super().plan(tier)
@@ -100,7 +101,28 @@ class C10(Prop):
             cli["m"] = uniq
         if R.chance(20):
             cli["d"] = R.choice(["", "INFO", "DEBUG", "DEBUG", "WARNING"])
+        NZ = R.fork("noise")
+        on_unl = [c for c in conns if c["proto"] == "tls" and c["s"]["port"] == unl]
+        if on_unl and NZ.chance(60):
+            # unrelated UDP traffic to the same (unlisted) port number, seen before the TCP connection starts: a datagram
+            # that looks like a QUIC long header must not make that port a TLS server port
+            nz = gen.gen_udp_noise(NZ.fork("n"), len(conns), used, v6=on_unl[0]["v6"], port=unl)
+            nz["dgrams"] = [["c", (bytes([0xC0 | NZ.below(16)]) + b"\x00\x00\x00\x01\x08" + NZ.bytes(8) + b"\x00" +
+                                   NZ.bytes(NZ.range(10, 1100))).hex()]] + nz["dgrams"][:2]
+            nz["t"]["start_us"] = 0
+            for c in on_unl:
+                c["t"]["start_us"] = max(c["t"].get("start_us", 0), 4000) + 4000
+            conns.append(nz)
+        GR = R.fork("grease")
+        qc = [c for c in conns if c["proto"] == "quic" and not c["q"].get("retry")]
+        if qc and GR.chance(35):
+            # RFC 9287: the QUIC bit of every packet one endpoint (here the client, from its first Initial on) sends is
+            # cleared; -g tells TLExport to accept such packets
+            GR.choice(qc)["q"]["grease_bit"] = "c"
+            cli["g"] = True
         spec = {"prop": "C10", "conns": conns, "tap": gen.gen_tap(R.fork("tap")), "cli": cli, "unlisted": unl}
+        if on_unl and len(conns) and conns[-1]["proto"] == "udp":
+            spec["quic_like_noise_to_unlisted_port"] = True
         E = R.fork("earlier")
         if "m" in cli and E.chance(40):
             # the same process exported before with another -m list (pairs for every server port of this world): the pairs
@@ -160,6 +182,8 @@ class C10(Prop):
             out.count("reach:p_list")
         if spec.get("first_from_server") is not None:
             out.count("reach:first_segment_from_server")
+        if spec.get("quic_like_noise_to_unlisted_port"):
+            out.count("reach:quic_like_noise_to_unlisted_port")
         selected = set([443, 44330] + list(cli.get("p", [])))
         fc = failure_class(res)
         if fc:
@@ -201,6 +225,8 @@ class C10(Prop):
                 out.count("reach:quic_conn")
                 if c.get("c_mig"):
                     out.count("reach:quic_client_address_change")
+                if c["q"].get("grease_bit"):
+                    out.count("reach:quic_bit_greased_with_g")
             if c.get("same_client_socket"):
                 out.count("reach:same_client_socket_other_server_port")
             if sp == spec.get("unlisted"):
